@@ -1,5 +1,5 @@
 (** C12 - proofs about [value_to_chunks] / [chunks_to_value] (multi-limb scalars). *)
-From Coq Require Import NArith List Lia.
+From Coq Require Import NArith PeanoNat List Lia.
 From CB Require Import Crypto.Chunks Crypto.ChunksProofs Crypto.ValueChunks.
 Import ListNotations.
 Local Open Scope N_scope.
@@ -88,7 +88,7 @@ Proof.
   intros Hr Hin Hb. destruct (in_chunk_sizes s Hin) as [Hs Hn]. pose proof (in_chunk_sizes_le s Hin) as Hle.
   unfold chunks_to_value_checked, chunks_to_value_gen, sections.
   rewrite (ctv_loop_sum _ r s (num_chunks s) Hr (num_chunks_pos s Hin) Hn); [f_equal; f_equal; lia| |lia|exact Hb].
-  intros sec Hsb Hlen. apply section_checked; try assumption. lia.
+  intros sec Hsb Hlen. apply section_checked; try assumption. rewrite <- Hn. apply N.mul_le_mono_r. lia.
 Qed.
 Theorem chunks_to_value_wrapping_sum r s cs :
   r <> 0 -> In s chunk_sizes -> Forall (fun c => c < 2 ^ s) cs ->
@@ -97,7 +97,7 @@ Proof.
   intros Hr Hin Hb. destruct (in_chunk_sizes s Hin) as [Hs Hn]. pose proof (in_chunk_sizes_le s Hin) as Hle.
   unfold chunks_to_value_wrapping, chunks_to_value_gen, sections.
   rewrite (ctv_loop_sum _ r s (num_chunks s) Hr (num_chunks_pos s Hin) Hn); [f_equal; f_equal; lia| |lia|exact Hb].
-  intros sec Hsb Hlen. f_equal. apply section_wrapping; try assumption. lia.
+  intros sec Hsb Hlen. f_equal. apply section_wrapping; try assumption. rewrite <- Hn. apply N.mul_le_mono_r. lia.
 Qed.
 
 (** without the side condition the result is NOT the sum: a chunk of 2^32 (what aggregation of two
